@@ -95,7 +95,10 @@ func valuePool(rng *rand.Rand) [][]byte {
 	return [][]byte{{}, {0x7f}, inc, comp, looks, []byte("plain"), {0xff, 0x06, 0x00, 0x00, 's', 'N', 'a', 'P', 'p', 'Y'}}
 }
 
-var keyPool = []string{"a", "b", "1@a", "2@a", "@", "1@1@a"}
+var keyPool = []string{"a", "b", "1@a", "2@a", "@", "1@1@a", "0@a", "10@a", "1@"}
+
+// pairs of versions sharing the layers below (version 0 is a version like any other; 1 is a prefix of 10 and 11)
+var versionPairs = [][]uint{{1, 2}, {0, 1}, {2, 0}, {1, 10}, {11, 1}, {0, 10}}
 
 func runStack(t *testing.T, run *vt.Run, c vt.CaseID, rng *rand.Rand, sc stackCase) {
 	synctest.Test(t, func(t *testing.T) {
@@ -120,7 +123,7 @@ func runStack(t *testing.T, run *vt.Run, c vt.CaseID, rng *rand.Rand, sc stackCa
 		if idx < 0 {
 			clients = []client{{shared, 0}}
 		} else {
-			for _, ver := range []uint{1, 2} {
+			for _, ver := range versionPairs[rng.IntN(len(versionPairs))] {
 				var cc cache.Cache = cache.NewVersioned(shared, ver, logger)
 				for j := idx - 1; j >= 0; j-- {
 					cc = wrap(sc.Order[j], cc, sc, logger, fmt.Sprintf("v%d", ver))
@@ -152,7 +155,7 @@ func runStack(t *testing.T, run *vt.Run, c vt.CaseID, rng *rand.Rand, sc stackCa
 		for op := 0; op < nops; op++ {
 			ci := rng.IntN(len(clients))
 			cl := clients[ci]
-			key := keyPool[rng.IntN(4+rng.IntN(3))]
+			key := keyPool[rng.IntN(4+rng.IntN(6))]
 			val := vals[rng.IntN(len(vals))]
 			// unique suffix now and then so that "most recent" is unambiguous
 			if rng.IntN(2) == 0 {
